@@ -145,7 +145,7 @@ def run(tier, seed):
     rep = core.Report("C16", tier, seed)
     quick = tier == "quick"
     cfg = lambda runs, acc, outb, counts: f"SPECIFICATION Spec\nCHECK_DEADLOCK FALSE\nCONSTANTS\n MaxRuns = {runs}\n AccBits = {acc}\n OutBits = {outb}\n Counts <- CountsDef\nINVARIANT Holds\n"  # noqa: E731
-    r = core.must_pass(core.tlc("MCZonal", cfg(3 if quick else 4, 0, 0, 0), defs="CountsDef == {1, 2}\n", workers=core.NCPU, timeout=3000, heap="6g"), "zonal exact")
+    r = core.must_pass(core.tlc("MCZonal", cfg(3, 0, 0, 0), defs=("CountsDef == {1, 2}\n" if quick else "CountsDef == {1, 2, 3}\n"), workers=core.NCPU, timeout=3000, heap="6g"), "zonal exact")
     rep.add_mc("MCZonal exact accumulators = contract, permutation invariance", r)
     r = core.must_pass(core.tlc("MCZonal", cfg(2, 12, 4, 0), defs="CountsDef == {1, 20}\n", workers=core.NCPU, timeout=3000, heap="6g"), "zonal wide accumulator")
     rep.add_mc("MCZonal 12-bit accumulators, 4-bit output: contract holds for zones up to 40 pixels", r)
